@@ -95,6 +95,12 @@ class Body:
 
 def callee_name(f, fb=None):
     """canonical, impl-index-free name of a call target"""
+    n = _callee_name(f)
+    rw = getattr(fb, "rewrite", None) if fb is not None else None
+    return rw(n) if rw else n
+
+
+def _callee_name(f):
     if "indirect" in f:
         return "<indirect>"
     d = f["def"]
